@@ -291,6 +291,7 @@ def run(ctx):
     _tag_order(ctx, repo)
     _unset_string_default(ctx, repo)
     _operand_order(ctx, repo)
+    _complete_scan(ctx, repo)
     shared.module_state_rule(ctx, 'C16.i', ['cirq-google/cirq_google/api/', 'cirq-google/cirq_google/serialization/', 'cirq-google/cirq_google/study/', 'cirq-google/cirq_google/devices/'], floor=3)
     ctx.decided.append('C16.i converters keep no state between calls: module-level containers of the serialization packages are never written from inside a function')
 
@@ -1432,3 +1433,49 @@ def _operand_order(ctx, repo, rid='C16.o'):
                    '(x**2 is read back as 2**x)', m.rel, lp.lineno)
     if n == 0:
         raise AnalysisError('C16.o: no loop writing the operands of a symbolic value found')
+
+
+def _complete_scan(ctx, repo):
+    """C16.p - a scan that classifies *and* validates the elements of a sequence visits all of them unless it records why it stopped."""
+    ctx.decided.append('C16.p arg_to_proto: the loop that chooses the packed numeric field for a sequence and detects a non-numeric element leaves early only after recording that element; '
+                       'an early exit "because the widest field is reached" would leave later elements unchecked and push them through float()')
+    ctx.rule('C16.p', 'complete scan: in cirq_google.serialization.arg_func_langs, for every for-loop that is followed by a test of a flag variable initialised to None before the loop, each '
+             '`break` inside the loop stands in a block that assigns that flag', floor=1, style='MPT')
+    m = repo.module('cirq-google/cirq_google/serialization/arg_func_langs.py')
+    n = 0
+    for fn in [f for f in ast.walk(m.tree) if isinstance(f, ast.FunctionDef)]:
+        for blk in [b for b in ast.walk(fn) if hasattr(b, 'body') and isinstance(getattr(b, 'body'), list)]:
+            for stmts in (blk.body, getattr(blk, 'orelse', [])):
+                for i, st in enumerate(stmts):
+                    if not isinstance(st, ast.For) or i + 1 >= len(stmts) or not isinstance(stmts[i + 1], ast.If):
+                        continue
+                    test = stmts[i + 1].test
+                    flags = {x.id for x in ast.walk(test) if isinstance(x, ast.Name)}
+                    inits = {t.id for s in stmts[:i] if isinstance(s, ast.Assign) and isinstance(s.value, ast.Constant) and s.value.value is None for t in s.targets if isinstance(t, ast.Name)}
+                    flag = flags & inits
+                    if not flag:
+                        continue
+                    par = m.parents()
+                    for b in [x for x in ast.walk(st) if isinstance(x, ast.Break)]:
+                        # the statement list the break sits in
+                        p = par.get(b)
+                        sibs = []
+                        for field in ('body', 'orelse'):
+                            lst = getattr(p, field, None)
+                            if isinstance(lst, list) and b in lst:
+                                sibs = lst
+                        # breaks of nested loops belong to those loops
+                        q, inner = b, False
+                        while q is not st:
+                            q = par[q]
+                            if isinstance(q, (ast.For, ast.While)) and q is not st:
+                                inner = True
+                        if inner:
+                            continue
+                        n += 1
+                        ok = any(isinstance(s, ast.Assign) and any(isinstance(t, ast.Name) and t.id in flag for t in s.targets) for s in sibs)
+                        ctx.ob('C16.p', f'{m.name}.{fn.name}:break@{sorted(flag)[0]}#{n}', ok, '' if ok else
+                               f'the loop over `{ast.unparse(st.iter)}` is left at line {b.lineno} without setting `{sorted(flag)[0]}`: elements after that point are never examined, so a '
+                               'non-numeric element behind a float is written into a numeric field (or raises) instead of taking the generic encoding', m.rel, b.lineno)
+    if n == 0:
+        raise AnalysisError('C16.p: no flag-recording scan loop found in arg_func_langs')
